@@ -894,7 +894,7 @@ def selftest(pids, quick=False, seed=0, verbose=True):
             r['mismatches'] += 1
             mismatches.append((name, what, 'Python stream %s but Lean stream %s' % (' '.join(map(str, want)), got)))
     rj = reject_tests(verbose=False)       # side conditions of the front-end: every violating snippet is refused
-    report['_reject_tests'] = {'snippets': len(REJECT), 'not_refused': [w for w, _ in rj]}
+    report['_reject_tests'] = {'snippets': len(REJECT) + len(REJECT_REV), 'not_refused': [w for w, _ in rj]}
     for what, why in rj:
         mismatches.append(('reject-test', what, str(why)))
     report['_mismatches'] = [{'function': n, 'case': c, 'what': b} for n, c, b in mismatches[:5]]
@@ -955,6 +955,75 @@ REJECT = [
 ]
 
 
+_RJ_REV = '''import io
+import os
+def reverse_iter_lines(file_obj, blocksize=4096, preseek=True, encoding=None):
+    try:
+        encoding = encoding or file_obj.encoding
+    except AttributeError:
+        encoding = None
+    orig_obj = file_obj
+    try:
+        file_obj = orig_obj.detach()
+    except (AttributeError, io.UnsupportedOperation):
+        pass
+    empty_bytes, newline_bytes, empty_text = b'', b'\\n', ''
+    if preseek:
+        file_obj.seek(0, os.SEEK_END)
+    buff = empty_bytes
+    cur_pos = file_obj.tell()
+    while 0 < cur_pos:
+        read_size = min(blocksize, cur_pos)
+        cur_pos -= read_size
+        file_obj.seek(cur_pos, os.SEEK_SET)
+        cur = file_obj.read(read_size)
+        buff = cur + buff
+        lines = buff.splitlines()
+        if len(lines) < 2 or lines[0] == empty_bytes:
+            continue
+        if buff[-1:] == newline_bytes:
+            yield empty_text if encoding else empty_bytes
+        for line in lines[:0:-1]:
+            yield line.decode(encoding) if encoding else line
+        buff = lines[0]
+    if buff:
+        lines = buff.splitlines()
+        if buff[-1:] == newline_bytes:
+            lines.append(empty_bytes)
+        for line in lines[::-1]:
+            yield line.decode(encoding) if encoding else line
+'''
+
+
+def _rv(old, new):
+    assert _RJ_REV.count(old) >= 1, old
+    return _RJ_REV.replace(old, new, 1)
+
+
+REJECT_REV = [
+    ('None parameter assigned', lambda: _rv("    if preseek:", "    encoding = 'utf-8'\n    if preseek:")),
+    ('None parameter used as a value', lambda: _rv("yield line.decode(encoding) if encoding else line\n        buff", "yield line.decode(encoding)\n        buff")),
+    ('None probe with another handler body', lambda: _rv("    except AttributeError:\n        encoding = None", "    except AttributeError:\n        encoding = 'ascii'")),
+    ('file object passed on', lambda: _rv("    buff = empty_bytes", "    print(file_obj)\n    buff = empty_bytes")),
+    ('file object rebound', lambda: _rv("    buff = empty_bytes", "    file_obj = io.BytesIO(b'')\n    buff = empty_bytes")),
+    ('seek relative to the end', lambda: _rv("file_obj.seek(0, os.SEEK_END)", "file_obj.seek(-1, os.SEEK_END)")),
+    ('seek relative to the position', lambda: _rv("file_obj.seek(cur_pos, os.SEEK_SET)", "file_obj.seek(cur_pos, os.SEEK_CUR)")),
+    ('read without a size', lambda: _rv("file_obj.read(read_size)", "file_obj.read()")),
+    ('read inside an expression', lambda: _rv("        cur = file_obj.read(read_size)\n        buff = cur + buff", "        buff = file_obj.read(read_size) + buff")),
+    ('another file method', lambda: _rv("cur = file_obj.read(read_size)", "cur = file_obj.readline(read_size)")),
+    ('detach alias used later', lambda: _rv("    if buff:\n", "    orig_obj.close()\n    if buff:\n")),
+    ('reserved name used', lambda: _rv("    buff = empty_bytes", "    file_data = 1\n    buff = empty_bytes")),
+    ('appended-to list aliased', lambda: _rv("        if buff[-1:] == newline_bytes:\n            lines.append", "        other = lines\n        if buff[-1:] == newline_bytes:\n            lines.append")),
+    ('appended-to list bound to a display', lambda: _rv("        lines = buff.splitlines()\n        if buff[-1:] == newline_bytes:\n            lines.append", "        lines = [buff]\n        if buff[-1:] == newline_bytes:\n            lines.append")),
+    ('slice with another step', lambda: _rv("lines[::-1]", "lines[::-2]")),
+    ('reversed slice with a lower bound', lambda: _rv("lines[:0:-1]", "lines[3:0:-1]")),
+    ('index 1 in the guarded test', lambda: _rv("lines[0] == empty_bytes", "lines[1] == empty_bytes")),
+    ('guard that does not guarantee an item', lambda: _rv("len(lines) < 2 or", "len(lines) < 0 or")),
+    ('splitlines with keepends', lambda: _rv("lines = buff.splitlines()\n        if len", "lines = buff.splitlines(True)\n        if len")),
+    ('splitlines of a str', lambda: _rv("lines = buff.splitlines()\n        if len", "lines = 'a b'.splitlines()\n        if len")),
+]
+
+
 def reject_tests(verbose=True):
     """-> list of snippets that were NOT refused (must be empty); the unmodified snippet must be accepted"""
     import srctie_specs
@@ -981,4 +1050,25 @@ def reject_tests(verbose=True):
             bad.append((what, 'accepted'))
         elif verbose:
             print('refused (%s): %s' % (what, infos[idx]['error'][:110]))
+
+    def tr_rev(src):
+        specs = [copy.deepcopy({k: v for k, v in sp.items() if not k.startswith('_')}) for sp in srctie_specs.SPECS['C19']
+                 if sp['module'] == 'boltons.jsonutils']
+        _t, infos = py2lean.translate_source(src, specs, 'boltons.jsonutils', '<snippet>')
+        return infos
+    ok = tr_rev(_RJ_REV)
+    if any(i.get('error') for i in ok):
+        bad.append(('the unmodified reverse_iter_lines snippet', [i.get('error') for i in ok]))
+    for what, mk in REJECT_REV:
+        src = mk()
+        try:
+            compile(src, '<snippet>', 'exec')
+        except SyntaxError as e:
+            bad.append((what, 'snippet does not compile: %s' % e))
+            continue
+        infos = tr_rev(src)
+        if not infos[0].get('error'):
+            bad.append((what, 'accepted'))
+        elif verbose:
+            print('refused (%s): %s' % (what, infos[0]['error'][:110]))
     return bad
